@@ -2900,7 +2900,9 @@ def constants_from_enum(cls=None, module=None):
 
 @register_finalize_hook
 def validate_macros_hook(config):
-  for ref in iterate_references(config, to=get_configurable(macro)):
+  # Not `get_configurable(macro)`: that applies the currently active scope.
+  macro_wrapper = _INVERSE_REGISTRY[macro].wrapper
+  for ref in iterate_references(config, to=macro_wrapper):
     validate_reference(ref, require_evaluation=True)
 
 
